@@ -31,6 +31,9 @@ DOCS = [
     "mutation { req { id name } inc }",
     "mutation { other { b } req { id } inc }",
     "mutation M($s: Boolean!) { inc @skip(if: $s) other { b tags } x: inc }",
+    "mutation { ...MF2 } fragment MF2 on Mutation { inc set(v: \"s\") { id name } other { b } }",
+    "mutation { ... on Mutation { set(v: \"s\") { id name } other { b tags } } }",
+    "mutation { ... { inc other { b } must } }",
 ]
 
 
